@@ -48,6 +48,21 @@ theorem client_constructions : Extracted.clientConstructions = [
     syscall, x/sys/unix nor the plugin package -/
 theorem native_packages_cannot_exec : Extracted.nativeForbiddenImports = [] := by decide
 
+/-- … and that verdict is not the emptiness of an empty scan: the eleven non-test files of those packages WERE scanned,
+    they import what one knows they import (positive controls: `crypto/rand`, `golang.org/x/crypto/ssh`, the internal
+    packages), and the forbidden imports RECOMPUTED here from the per-import table the extractor emits are the list
+    above -/
+theorem native_imports_recomputed :
+    (Extracted.nativeImportPairs.map (·.1)).eraseDups =
+      ["age.go", "agessh/agessh.go", "agessh/encrypted_keys.go", "armor/armor.go", "internal/bech32/bech32.go",
+       "internal/format/format.go", "internal/stream/stream.go", "parse.go", "primitives.go", "scrypt.go", "x25519.go"] ∧
+    Extracted.nativeFileImports.map (·.1) = (Extracted.nativeImportPairs.map (·.1)).eraseDups ∧
+    (("age.go", "crypto/rand") ∈ Extracted.nativeImportPairs ∧ ("agessh/encrypted_keys.go", "golang.org/x/crypto/ssh") ∈ Extracted.nativeImportPairs ∧
+      ("age.go", "filippo.io/age/internal/stream") ∈ Extracted.nativeImportPairs ∧ ("scrypt.go", "golang.org/x/crypto/scrypt") ∈ Extracted.nativeImportPairs) ∧
+    Extracted.nativeImportPairs.filter (fun r =>
+      ["os/exec", "golang.org/x/sys/execabs", "syscall", "golang.org/x/sys/unix", "plugin", "filippo.io/age/plugin"].contains r.2) =
+      Extracted.nativeForbiddenImports := by decide
+
 /-- the name allow-list is the specified one … -/
 theorem allowlist_tie : Extracted.pluginNameAllowedBytes = SpecConsts.pluginNameAllowedBytes := by decide
 
